@@ -1301,6 +1301,10 @@ static void generate_list_implementations(Environment *env, StringBuilder *sb) {
 
             sb_appendf(sb, "%s nl_list_%s_get(List_%s *list, int index) {\n",
                       prefixed_elem_type, type_name, type_name);
+            sb_appendf(sb, "    if (!list || index < 0 || index >= list->count) {\n");
+            sb_appendf(sb, "        fprintf(stderr, \"Error: Index %%d out of bounds for list of length %%d\\n\", index, list ? list->count : 0);\n");
+            sb_appendf(sb, "        exit(1);\n");
+            sb_appendf(sb, "    }\n");
             sb_appendf(sb, "    return list->data[index];\n");
             sb_appendf(sb, "}\n\n");
 
